@@ -518,7 +518,7 @@ let run_case (x : sx) : unit =
             if !want_spec then begin
               (* model-only extra: the verdict of the reference semantics (Model/Spec.v) per document *)
               (* classes of known deviations of the crate from the reference, as (k (0 ...)) *)
-              let sk = spec_known o y in
+              let sk = spec_known_all o y in
               if not !want_known then begin
                 add " (k (0";
                 List.iter (fun c -> add (Printf.sprintf " %d" (int_of_n c))) sk;
